@@ -39,6 +39,9 @@ typedef struct {
 	const uint8_t *fail_key; size_t fail_len; int have_fail;
 	uint64_t calls, failures_returned, operand_errors;
 	int dso_style;                 /* no checks */
+	int fail_on_fold;              /* 0: every fold of the key fails; n: only the n-th fold of that key (n >= 1) */
+	int fail_untouched;            /* report failure by leaving *merged_val as the caller initialised it (not by storing NULL) */
+	int folds_of_fail_key;
 } mclos_t;
 
 static void ms_merge_cb(void *clos, const uint8_t *key, size_t lk, const uint8_t *v0, size_t l0, const uint8_t *v1, size_t l1, uint8_t **mv, size_t *lmv)
@@ -49,7 +52,14 @@ static void ms_merge_cb(void *clos, const uint8_t *key, size_t lk, const uint8_t
 		ms_union(v0, l0, v1, l1, mv, lmv); return;
 	}
 	c->calls++;
-	if (c->have_fail && key_cmp(key, lk, c->fail_key, c->fail_len) == 0) { c->failures_returned++; *mv = NULL; *lmv = 0; return; }
+	if (c->have_fail && key_cmp(key, lk, c->fail_key, c->fail_len) == 0) {
+		c->folds_of_fail_key++;
+		if (!c->fail_on_fold || c->folds_of_fail_key == c->fail_on_fold) {
+			c->failures_returned++;
+			if (!c->fail_untouched) { *mv = NULL; *lmv = 0; }     /* the library hands in *merged_val == NULL; a callback may simply not touch it */
+			return;
+		}
+	}
 	/* operands must be id lists belonging to this key (an original value or an earlier result): catches stale or foreign buffers */
 	const uint8_t *ops[2] = {v0, v1}; size_t ls[2] = {l0, l1};
 	for (int o = 0; o < 2; o++) {
